@@ -251,6 +251,37 @@ theorem C09_scan_through_parallelise (cf : Bool) (s : Sched) (hn : 0 < s.n) (hT 
   simp only [Option.isSome_none, Bool.false_and, Bool.false_eq_true, if_false, if_true]
   exact ⟨by rw [seqScanCache_nocache], scanPar_nocache cf s hn hT w h cell rows⟩
 
+/-- SCANS WITH A RESULT CACHE (`scan.*(…, cache=Cache(dir))`, shipped row task).  Row labels pairwise distinct, and every
+    stored entry is what the independent run of the row filed under that label yields (the directory is empty, or was
+    filled by this very scan): then the scan — sequential, or pool mode under ANY schedule — is exactly the independent
+    runs: stored rows are unpickled, the others computed, each into its own fresh cell, in input order. -/
+theorem C09_scan_with_cache (par : Bool) (s : Sched) (hn : 0 < s.n) (hT : s.timedOut = []) (w : Worker) (h : Heap)
+    (cell : Nat) (c : Content) (rows : List (Label × Row)) (st0 : Store Pickled) (hc : h.read cell = .ok c)
+    (hd : distinctKeys (rows.map (·.1)) = true)
+    (hco : ∀ (lr : Label × Row) (p : Pickled), lr ∈ rows → st0.lookup lr.1 = some p → rowPure w c lr.2 = .ok p) :
+    (scanWith true par s w h cell rows (some st0)).1 = independentRuns w h c rows := by
+  have hspec : mapE (specRow (rowPure w c) (some st0)) rows = pureRows w c rows := by
+    rw [pureRows_mapE]
+    exact C09_cache_coherent (rowPure w c) rows (some st0) (fun kv r hkv hl => hco kv r hkv (by simpa [Option.bind] using hl))
+  unfold scanWith independentRuns
+  simp only [hd, Option.isSome_some, Bool.not_true, Bool.and_false, Bool.false_eq_true, if_false]
+  cases par with
+  | true =>
+    simp only [if_true]; rw [scanPar_spec s hn hT w h cell c hc rows st0 hd, hspec]
+    cases pureRows w c rows <;> rfl
+  | false =>
+    simp only [Bool.false_eq_true, if_false]
+    rw [seqScanCache_spec w c cell st0 rows h st0 hc hd (fun _ _ => rfl), hspec]
+    cases pureRows w c rows <;> rfl
+
+/-- … and with repeated row labels a cache is REFUSED before anything runs (results are stored per label) -/
+theorem C09_scan_cache_refuses_repeated_labels (cf par : Bool) (s : Sched) (w : Worker) (h : Heap) (cell : Nat)
+    (rows : List (Label × Row)) (st0 : Store Pickled) (hd : distinctKeys (rows.map (·.1)) = false) :
+    (scanWith cf par s w h cell rows (some st0)).1 =
+      .error (.valueError "Caching needs unique keys, but some keys occur more than once") := by
+  unfold scanWith
+  simp [hd]
+
 /-! ### facts regenerated from scan.py / mc.py / parallel.py on every run (`translate/c09.py` → `Generated/C09Facts.lean`) -/
 
 open Mxl.Generated.C09 in
